@@ -6,6 +6,7 @@ package main
 
 import (
 	"fmt"
+	"go/constant"
 	"go/token"
 	"go/types"
 	"strings"
@@ -956,4 +957,58 @@ func removalOwner(u *Universe, f *ssa.Function, depth int) bool {
 		})
 	}
 	return sites > 0 && ok
+}
+
+// ruleC15PolicySelection: the builder installs the implementation that the requested policy names.
+func ruleC15PolicySelection(c *Ctx) {
+	u := c.U1
+	c.rule("C15.policy-selection", "builder.WithPolicy stores, on the edge where the requested policy equals the constant \"x\", a new instance of the policy type named x (lru, lfu, slru, tinylfu); every implementation is selectable", 4)
+	var wp *ssa.Function
+	for _, f := range u.RepoFuncs {
+		if f.Pkg != nil && f.Pkg.Pkg.Path() == pkgCache && f.Name() == "WithPolicy" && f.Signature.Recv() != nil && f.Blocks != nil {
+			wp = orig(f)
+		}
+	}
+	if wp == nil {
+		c.unresolved("builder.WithPolicy", "method")
+		return
+	}
+	c.FuncsAnalysed[shortName(wp)] = true
+	seen := map[string]bool{}
+	allInstrs(wp, func(i ssa.Instruction) {
+		st, ok := i.(*ssa.Store)
+		if !ok {
+			return
+		}
+		if _, fld, isF := fieldAccess(st.Addr); !isF || fld != "policy" {
+			return
+		}
+		tn := ""
+		if a := allocOf(unwrapIface(st.Val)); a != nil {
+			tn = namedTypeName(a.Type())
+		}
+		if k := strings.Index(tn, "["); k >= 0 {
+			tn = tn[:k]
+		}
+		want := ""
+		for _, fct := range factsAt(i.Block()) {
+			b, isB := fct.V.(*ssa.BinOp)
+			if !isB || b.Op != token.EQL || !fct.True {
+				continue
+			}
+			for _, o := range []ssa.Value{b.X, b.Y} {
+				if k, isC := constOf(o); isC && k.Kind() == constant.String {
+					want = constant.StringVal(k)
+				}
+			}
+		}
+		seen[strings.ToLower(tn)] = true
+		c.check(want != "" && strings.ToLower(tn) == strings.ToLower(want), "cache.builder.WithPolicy/"+tn, u.ipos(i), "policy \""+want+"\" → new("+tn+")", "the builder installs "+tn+" where policy \""+want+"\" was requested: the cache evicts by another policy than the configured one")
+	})
+	for _, nt := range policyImpls(u) {
+		n := strings.ToLower(nt.Obj().Name())
+		if !seen[n] {
+			c.bad("cache.builder.WithPolicy/"+nt.Obj().Name(), u.pos(wp.Pos()), "policy implementation "+nt.Obj().Name()+" is never installed by WithPolicy: requesting it silently leaves the default policy in place")
+		}
+	}
 }
